@@ -19,13 +19,13 @@ deriving DecidableEq, Repr, Inhabited
 inductive Ev where
   | bond (i j : Nat) (b : Option Char)        -- chain / branch bond between the previous atom i and the new atom j
   | ropen (i : Nat) (l : Nat) (b : Option Char)
-  | rclose (i : Nat) (l : Nat) (b : Option Char)
+  | rclose (i q : Nat) (l : Nat) (b : Option Char)   -- atom i closes the ring that atom q opened with label l
 deriving DecidableEq, Repr, Inhabited
 
 def Ev.map (f : Nat → Nat) : Ev → Ev
   | .bond i j b => .bond (f i) (f j) b
   | .ropen i l b => .ropen (f i) l b
-  | .rclose i l b => .rclose (f i) l b
+  | .rclose i q l b => .rclose (f i) (f q) l b
 
 structure St where
   atoms : List Atom
@@ -70,7 +70,7 @@ def step (s : St) : Tok → Option St
     | none => none
     | some p =>
       match lookupLabel l s.opens with
-      | some _ => some { s with evs := s.evs ++ [Ev.rclose p l s.pend], opens := eraseLabel l s.opens, pend := none }
+      | some q => some { s with evs := s.evs ++ [Ev.rclose p q l s.pend], opens := eraseLabel l s.opens, pend := none }
       | none => some { s with evs := s.evs ++ [Ev.ropen p l s.pend], opens := (l, p) :: s.opens, pend := none }
 
 def run (s : St) : List Tok → Option St
@@ -97,5 +97,9 @@ def labelsOf : List Tok → List Nat
   | [] => []
   | .ring l :: ts => l :: labelsOf ts
   | _ :: ts => labelsOf ts
+
+def relabelTok (f : Nat → Nat) : Tok → Tok
+  | .ring l => .ring (f l)
+  | t => t
 
 end Gly.Smi
